@@ -56,6 +56,9 @@ class Regime(object):
 
 EXACT = Regime()
 AWK = Regime(S_AWK, O_AWK, 'awkward')
+# a small grid far from the origin (0.2 m pixels at northing 5 200 000 m): the extent is tiny against the coordinates,
+# so differences of coordinates carry a relative error of 1e-9 rather than 1e-16
+FAR = Regime(0.01, 5200000.0, 'far')
 
 
 def real_grid(name, regime=EXACT, srs=3857):
